@@ -314,6 +314,7 @@ impl<'a> Run<'a> {
 
     fn stuck(&mut self, what: &str, waited: Waited) {
         match waited {
+            Waited::Deadlock(description) if description.starts_with("access batches to be applied") => self.fail(&["C15", "C18"], "C15/handed-over-records-never-reach-the-sketch".into(), description),
             Waited::Deadlock(description) => self.fail(&["C18"], format!("C18/deadlock/{}", what), description),
             Waited::WorkerDead => {
                 let roles = self.sut.background_panics();
@@ -1025,6 +1026,16 @@ impl<'a> Run<'a> {
         self.counts.inc("op:advance");
         let before = self.now();
         if before as u128 + delta_ns as u128 > 17_900_000_000u128 * NS as u128 { return; }
+        // C17: now and then the clock is corrected BACKWARDS instead - only while no held key carries a deadline, so that every deadline set
+        // afterwards is unambiguous for the model; sweeps must keep completing on both sides of the step
+        if self.cfg.focus == "C17" && self.model.values().all(|e| e.expiry.is_none()) && self.overdue.is_empty() && self.rng.chance(1, 3) {
+            let back = *self.rng.pick(&[1_000_000u64, 5_000_000, NS / 2, NS, 3 * NS]);
+            self.sut.step_back(back);
+            self.sig = fnv_step(self.sig, 0xBAC0 ^ back);
+            self.counts.inc("clock_stepped_backwards_between_sweeps");
+            if let Err(waited) = self.sut.settle() { self.stuck("sweeps after the clock stepped backwards", waited); }
+            return;
+        }
         self.sut.advance(delta_ns);
         self.sig = fnv_step(self.sig, 0xADu64 ^ (delta_ns.min(4 * NS)));
         self.after_clock_moved(before);
@@ -1421,6 +1432,31 @@ impl<'a> Run<'a> {
         if !self.stop && !bg.is_empty() {
             let site = rt::panics_since(self.panic_mark).last().map(rt::panic_site).unwrap_or_else(|| "no-panic".into());
             self.fail(&["C17"], format!("C17/background-thread-panicked/{:?}/{}/counters={}", bg, site, if self.cfg.sut.counters == 1 { "1" } else { ">1" }), format!("background thread(s) {:?} panicked ({})", bg, context));
+        }
+        #[cfg(feature = "typed")]
+        if !self.stop && !self.noise_on && self.sut.background_exits().is_empty() { self.check_released(context); }
+    }
+
+    /// Typed flavours: at this quiescent point every value instance alive is one the store holds. A value of a deleted key that the cache
+    /// still owns while every one of its threads is idle has not been released (C04); the verdict is logical (the hang test), not timed.
+    #[cfg(feature = "typed")]
+    fn check_released(&mut self, context: &str) {
+        let stored = self.sut.snapshot().stored.len();
+        if crate::typed::retained(stored) <= 0 { self.counts.inc("typed_quiescent_points_where_every_live_value_is_a_stored_entry"); return; }
+        let after_delete = last_shape(self.history.last().unwrap_or(&J::Null)).starts_with("delete");
+        match rt::wait_until("every value the cache no longer stores to be dropped", || crate::typed::retained(stored) <= 0) {
+            Ok(()) => self.counts.inc("typed_quiescent_points_where_every_live_value_is_a_stored_entry"),
+            Err(Waited::Deadlock(_)) => {
+                rt::clear_abort();
+                let retained = crate::typed::retained(stored);
+                if after_delete {
+                    self.fail(&["C04"], "C04/deleted-value-still-owned-by-the-cache/typed".into(),
+                              format!("after the acknowledged delete {} value instance(s) are alive beyond the {} stored entries while every thread of the cache is idle: the deleted value has not been released ({})", retained, stored, context));
+                } else {
+                    self.counts.inc("typed_quiescent_points_with_a_value_owned_but_not_stored");
+                }
+            }
+            Err(other) => self.inconclusive(format!("release of values: {}", waited_name(&other))),
         }
     }
 }
